@@ -49,7 +49,7 @@ View == <<cfg, tbl, sess, obs, phase>>
 
 MutSp == [u : Users, v : Variants] \cup [u : {"bad"}, v : BadVariants]
 AllSp == MutSp \cup [u : {"ux"}, v : {"plain"}]
-Azs   == {"empty", "same", "variant", "other"}
+Azs   == {"empty", "same", "variant", "other", "fold"}
 Mechs == {"PLAIN", "LOGIN"}
 
 TooLong(pw) == pw \in {"l73", "long", "long2"}          \* more than 72 bytes
@@ -125,7 +125,7 @@ Delete(sp, fail) ==
 AuthOne(mech, sp, pw, az, D) ==
   /\ phase = "run" /\ Turn(IF mech = "PLAIN" THEN "AuthPlain" ELSE "AuthLogin")
   /\ mech = "LOGIN" => az = "empty"
-  /\ LET r == Outcome(mech, sp, pw, az, D) IN obs' = ObsAuth(obs, cfg.map, sp, pw, az, r.ok)
+  /\ LET r == Outcome(mech, sp, pw, az, D) IN obs' = ObsAuth(obs, cfg.map, sp, pw, az, r.ok, r.id)
   /\ hist' = H([a |-> "Auth", mech |-> mech, sp |-> sp, pw |-> pw, az |-> az])
   /\ pending' = "none" /\ UNCHANGED <<cfg, tbl, sess, phase>>
 
